@@ -38,7 +38,7 @@ class AckSpy(so.RecTransport):
         return so.RecTransport.send(self, node, message)
 
 
-@obligation('JR2', props=('C06',), quick=[dict(n=1, m=1), dict(n=2, m=2), dict(n=2, m=1)], thorough=[dict(n=n, m=m) for n in (1, 2, 3) for m in (1, 2)],
+@obligation('JR2', props=('C06',), quick=[dict(n=1, m=1), dict(n=2, m=2), dict(n=2, m=1)], thorough=[dict(n=n, m=m) for n in (1, 2, 3, 4) for m in (1, 2, 3)],
             stubs=_STUBS, bounds='journaled follower with n<=3 entries, append_entries with m<=2 entries, symbolic terms/prevLogIdx (conflicts included); the disk image is inspected at the instant the success acknowledgement is handed to the transport')
 def JR2(inp, n, m):
     """acknowledged means durable: at the instant a success acknowledgement for index i leaves the node, a process killed right
@@ -105,8 +105,8 @@ def _prefill(inp, fs, n, base, commit_meta):
     return ents
 
 
-@obligation('JR3', props=('C06', 'C09'), quick=[dict(n=3), dict(n=4)], thorough=[dict(n=3), dict(n=4), dict(n=5)], stubs=_STUBS,
-            bounds='journal of n<=5 entries starting at index 1..3, dump taken at any journal position (or below / above the journal), symbolic terms; the dump agrees or disagrees with the journal head')
+@obligation('JR3', props=('C06', 'C09'), quick=[dict(n=3), dict(n=4)], thorough=[dict(n=3), dict(n=4), dict(n=5), dict(n=6)], stubs=_STUBS,
+            bounds='journal of n<=6 entries starting at index 1..3, dump taken at any journal position (or below / above the journal), symbolic terms; the dump agrees or disagrees with the journal head')
 def JR3(inp, n):
     """start-up reconciliation (journal + dump): after the first-tick load no journaled entry above the dump position is lost,
     the applied index equals the dump position, and the commit index is not above the log end."""
